@@ -299,3 +299,24 @@ package immutable
 //@   loop 0 invariant forall k K :: (forall j int :: 0 <= j && j < idx_ ==> !m.hasher.Eqv(k, key[j])) ==> Eq(ret.Get(k), m.Get(k))
 //@   loop 0 invariant forall k K, j int :: 0 <= j && j < idx_ && m.hasher.Eqv(k, key[j]) ==> !ret.Get(k).IsDefined()
 //@   loop 0 decreases len(key) - idx_
+//
+// ---- builders hand out snapshots (C04: "a collection handed out by a builder is not changed by later use of that builder")
+//@ ghost
+//@ func scriptSetBuilderSnapshot[V any](h fp.Hashable[V], a, b, c V) bool {
+//@ 	bld := SetBuilder(h)
+//@ 	bld.Add(a)
+//@ 	s := bld.Build()
+//@ 	n0 := s.Size()
+//@ 	c0 := s.Contains(c)
+//@ 	bld.Add(b)
+//@ 	n1 := s.Size()
+//@ 	c1 := s.Contains(c)
+//@ 	return n1 == n0 && c1 == c0
+//@ }
+//@ end
+//@ lemma setBuilderBuildIsSnapshot[V any](h fp.Hashable[V], a, b, c V)
+//@   prop C04 C03
+//@   option frame=off
+//@   requires veriflaws.HashLaws(h)
+//@   ensures scriptSetBuilderSnapshot(h, a, b, c)
+//@   tag laterAddDoesNotChangeTheSet
